@@ -278,6 +278,22 @@ def _reinit(bad, rig, case):
                 bad("reinit-model", f"after re-init zone {z.zone_id}: {d[0][0]} = {d[0][1]!r}, expected {d[0][2]!r}")
     if rig.net.max_open > 1:
         bad("two-connections", "two connections open at once")
+    # "a later init() works as on a fresh object": the periodic duties of a fresh object are taken up again
+    t2 = rig.loop.time()
+    c = rig.console
+    n_req = len(c.requests)
+    closes0 = len([e for e in rig.net.log if e[1] == "closed" and e[3] == "client"])
+    rig.loop.advance(650.0)
+    later = c.requests[n_req:]
+    hb = [t - t2 for (t, _cid, k, _p, _f) in later if k == "version_req"]
+    if [x for x in hb if x > 0] != [300.0, 600.0]:
+        bad("reinit-no-heartbeat", f"after re-init the heartbeat requests are seen at +{hb} s, a fresh object sends them at +300, +600")
+    if rig.gen == 4 and con.zones_of(inst2):
+        polls = [t - t2 for (t, _cid, k, _p, _f) in later if k == "zone_status_req"]
+        if polls != [300.0, 600.0]:
+            bad("reinit-no-poll", f"after re-init the AT4 group status polls are seen at +{polls} s, a fresh object polls at +300, +600")
+    if len([e for e in rig.net.log if e[1] == "closed" and e[3] == "client"]) != closes0:
+        bad("reinit-reset", "after re-init the client reset a healthy, answered link")
     # and shut down again: still clean
     o = rig.loop.call(rig.at.shutdown())
     if o[0] != "ok":
